@@ -1,7 +1,7 @@
 """C07 — blocking reader equals slice parsing for every fragmentation (DESIGN §4/C07)."""
 from rules import lib_call, lib_const
 
-LEVEL = "other"
+LEVEL = "proof"
 FUNCS = ["read::DltMessageReader::<S>::next_message_slice", "read::read_message", "read::DltMessageReader::<S>::new", "read::DltMessageReader::<S>::with_capacity", "read::DltMessageReader::<S>::with_storage_header"]
 
 
@@ -25,5 +25,8 @@ def run(ctx):
     try:
         from rules import lib_reader
         lib_reader.check(ctx, "read")
+        R.floor("PANIC", 6)
+        R.floor("ALG", 2)
+        R.floor("DISP", 6)
     except ImportError:
         R.notes.append("two-phase algebra / disposition / PANIC not built yet")
